@@ -222,3 +222,744 @@ Proof. unfold only_props. apply filter_app. Qed.
 
 Lemma only_props_12 ps (f : list N) : existsb (N.eqb 12) ps = false -> only_props ps (map (fun c => (12, c)) f) = [].
 Proof. intros H. unfold only_props. induction f as [|c f IH]; cbn; [reflexivity|]. rewrite H. exact IH. Qed.
+
+(* ================================================================== causes of termination *)
+
+Lemma read_disconnect0 : read_dgram (pack (Disconnect 0)) = Ok (Disconnect 0).
+Proof. vm_compute. reflexivity. Qed.
+
+Lemma handle_sn_disc0_end cfg s : exists S o c, handle_sn cfg s (Disconnect 0) = (S, o, HEnd c).
+Proof.
+  unfold handle_sn. assert (Hl : packet_legal cfg s (Disconnect 0) = true) by (unfold packet_legal; destruct (gw_st s); reflexivity).
+  rewrite Hl. cbn [negb]. change (0 =? 0) with true. cbv iota. unfold mq_send, sn_send, sn_send_owned. cbn [gw_st set].
+  cbn [ok andthen]. destruct (len (pack (Disconnect 0)) <=? MaxPacketLen); cbn; eauto.
+Qed.
+
+Lemma handle_sn_illegal cfg s p : packet_legal cfg s p = false -> handle_sn cfg s p = stop s [] EcIllegalPacket.
+Proof. intros H. unfold handle_sn. rewrite H. reflexivity. Qed.
+
+Lemma packet_legal_last_sn cfg s x p : packet_legal cfg (s <| gw_last_sn := x |>) p = packet_legal cfg s p.
+Proof. reflexivity. Qed.
+
+(* a cause other than the client's own DISCONNECT: the handler stops at once *)
+Lemma cause_false_stop cfg s ev :
+  cause_of cfg s ev = Some false -> exists s0 c, hd cfg s ev = stop s0 [] c /\ gw_st s0 = gw_st s /\ gw_now s0 = gw_now s.
+Proof.
+  unfold cause_of. destruct (running s); [|discriminate]. unfold termination_cause, hd.
+  destruct ev as [dg|m| | |d|]; try discriminate; try (intros _; eexists _, _; split; [reflexivity|split; reflexivity]).
+  destruct (read_dgram dg) as [p|e|ps]; try (intros _; eexists _, _; split; [reflexivity|split; reflexivity]).
+  intros H. exists (s <| gw_last_sn := gw_now s |>), EcIllegalPacket. split; [|split; reflexivity].
+  apply handle_sn_illegal. rewrite packet_legal_last_sn.
+  destruct p; try (destruct (packet_legal cfg s _); [discriminate H|reflexivity]).
+  destruct (dur =? 0); [discriminate H|]. destruct (packet_legal cfg s _); [discriminate H|reflexivity].
+Qed.
+
+Lemma cause_ends cfg s ev b :
+  cause_of cfg s ev = Some b -> exists S o c, hd cfg s ev = (S, o, HEnd c).
+Proof.
+  destruct b.
+  - unfold cause_of. destruct (running s); [|discriminate]. unfold termination_cause, hd.
+    destruct ev as [dg|m| | |d|]; try discriminate.
+    destruct (read_dgram dg) as [p|e|ps]; try discriminate.
+    destruct p; try (destruct (packet_legal cfg s _); discriminate).
+    destruct (dur =? 0) eqn:Hd; [|destruct (packet_legal cfg s _); discriminate].
+    apply N.eqb_eq in Hd. subst dur. intros _. apply handle_sn_disc0_end.
+  - intros H. destruct (cause_false_stop cfg s ev H) as (s0 & c & E & _). rewrite E. unfold stop. eauto.
+Qed.
+
+Lemma f13a_ok cfg s ev :
+  f13a_of cfg s ev (obs_of_outs (snd (finish_r (hd cfg s ev) (hx ev) (hy ev)))) = [].
+Proof.
+  unfold f13a_of. destruct (cause_of cfg s ev) as [[|]|] eqn:Hc; try reflexivity.
+  destruct (cause_false_stop cfg s ev Hc) as (s0 & c & E & Hst & _). rewrite E.
+  unfold stop, finish_r, begin_end. cbn [snd app]. rewrite Hst.
+  unfold sn_pkts, sns. destruct (gw_st s); cbn; rewrite ?read_disconnect0; reflexivity.
+Qed.
+
+Lemma handle_sn_disc_asleep cfg s d S o :
+  d <> 0 -> handle_sn cfg s (Disconnect d) = (S, o, HOk) -> gw_st S = Asleep.
+Proof.
+  intros Hd. unfold handle_sn. destruct (negb (packet_legal cfg s (Disconnect d))); [discriminate|].
+  apply N.eqb_neq in Hd. rewrite Hd. cbv zeta.
+  match goal with |- context [sn_send ?S0 ?p] => destruct (sn_send S0 p) as [[s1 o1] [|e]] end; cbn; intros H; inversion H.
+  reflexivity.
+Qed.
+
+(* ================================================================== the joint invariant *)
+
+Definition Bof (s : gw_state) (cb : option N) : N := match cb with Some T => T | None => gw_now s + 5100 end.
+
+Record GJ (cfg : gw_cfg) (PF : Prop) (s : gw_state) (cb eb : option N) (sd : N) (su : option N) (lc : N) : Prop := {
+  gj_lc : lc <= gw_now s;
+  gj_cb : forall T, cb = Some T -> T <= gw_now s + 5100 /\ gw_ended s = false /\ gw_connect s <> None;
+  gj_cb' : gw_ended s = false -> gw_connect s <> None -> cb <> None;
+  gj_su : forall u, su = Some u -> u = lc + sd;
+  gj_eb : forall T, eb = Some T -> gw_ended s = false /\ exists te, gw_ending s = Some te /\ te <= T;
+  gj_ph : gw_ended s = true \/
+          (gw_ended s = false /\ exists te, gw_ending s = Some te /\ gw_now s <= te <= gw_now s + 100 /\
+               forall T, cb = Some T -> te <= T) \/
+          TI cfg PF (Bof s cb) lc su (gw_now s) s }.
+
+Definition GJm cfg PF s m := GJ cfg PF s (m_connect_by m) (m_end_by m) (m_sleep_dur m) (m_sleep_until m) (m_last_client m).
+
+Definition okF (cfg : gw_cfg) (PF : Prop) (s : gw_state) (ev : gw_event) (os : list obs) (m : mon) : Prop :=
+  f10_of s ev os m = [] /\ f13a_of cfg s ev os = [] /\ f13b_of s ev os m = [] /\ (PF -> f34_of cfg s ev os m = []).
+
+Lemma is_sn_packet ev : is_sn ev = false -> ev_packet ev = None.
+Proof. destruct ev; try reflexivity. discriminate. Qed.
+
+Lemma su_ok s s' ev m :
+  (forall u, m_sleep_until m = Some u -> u = m_last_client m + m_sleep_dur m) ->
+  forall u, sleep_until_of s s' ev m = Some u -> u = last_client_of s ev m + sleep_dur_of s' ev m.
+Proof.
+  intros H u. unfold sleep_until_of, last_client_of. destruct (cstate_eqb (gw_st s') Asleep); [|discriminate].
+  destruct (is_sn ev) eqn:E; [intros Hu; inversion Hu; reflexivity|].
+  intros Hu. unfold sleep_dur_of. rewrite (is_sn_packet ev E). apply H, Hu.
+Qed.
+
+Lemma has_ping_false s : has_ping s = false -> no_ping s.
+Proof.
+  unfold has_ping, no_ping. intros H tm p Hin Hk.
+  assert (existsb is_ping (gw_timers s) = true); [|congruence].
+  apply existsb_exists. exists tm. split; [exact Hin|]. unfold is_ping. rewrite Hk. reflexivity.
+Qed.
+
+Lemma has_ping_true s : has_ping s = true -> exists tm p, In tm (gw_timers s) /\ tm_kind tm = TmPing p.
+Proof.
+  unfold has_ping. intros H. apply existsb_exists in H. destruct H as (tm & Hin & Hk). unfold is_ping in Hk.
+  destruct (tm_kind tm) eqn:E; try discriminate. eauto.
+Qed.
+
+Lemma TI_last_sn cfg PF B L U t0 s : TI cfg PF B L U t0 s -> TI cfg PF B L U t0 (s <| gw_last_sn := gw_now s |>).
+Proof. intros H. destruct H. constructor; cbn; try assumption. lia. Qed.
+Lemma TI_last_mq cfg PF B L U t0 s : TI cfg PF B L U t0 s -> TI cfg PF B L U t0 (s <| gw_last_mq := gw_now s |>).
+Proof. intros H. destruct H. constructor; cbn; try assumption. lia. Qed.
+
+Lemma hd_pt cfg PF B L U t0 s ev :
+  TI cfg PF B L U t0 s ->
+  (is_sn ev = true -> t0 + connectTransactionTimeout + connTimeout <= B /\ t0 <= L) ->
+  (PF -> forall d, ev_packet ev = Some (Disconnect d) -> d <> 0 -> exists u, U = Some u /\ t0 + d * 1000 <= u) ->
+  PT cfg PF B L U t0 (hd cfg s ev).
+Proof.
+  intros H Hsn HU. unfold hd. destruct ev as [dg|m| | |d|].
+  - destruct (Hsn eq_refl) as [HB HL]. cbn [ev_packet] in HU.
+    destruct (read_dgram dg) as [p|e|ps]; try (apply pt_stop, TI_last_sn, H).
+    apply handle_sn_pt; [apply TI_last_sn, H|exact HB|exact HL|].
+    intros HP d0 E. subst p. apply (HU HP d0 eq_refl).
+  - apply handle_mq_pt, TI_last_mq, H.
+  - apply pt_stop, TI_last_mq, H.
+  - apply pt_stop, H.
+  - apply pt_ok, H.
+  - apply pt_stop, H.
+Qed.
+
+(* ================================================================== one step of the monitor *)
+
+Definition Concl (cfg : gw_cfg) (PF : Prop) (s : gw_state) (ev : gw_event) (m : mon) : Prop :=
+  GJ cfg PF (fst (gw_step cfg s ev))
+     (connect_by_of s (fst (gw_step cfg s ev)) ev (obs_of_outs (snd (gw_step cfg s ev))) m)
+     (end_by_of cfg s (fst (gw_step cfg s ev)) ev (obs_of_outs (snd (gw_step cfg s ev))) m)
+     (sleep_dur_of (fst (gw_step cfg s ev)) ev m)
+     (sleep_until_of s (fst (gw_step cfg s ev)) ev m)
+     (last_client_of s ev m) /\
+  okF cfg PF s ev (obs_of_outs (snd (gw_step cfg s ev))) m.
+
+Lemma lc_ok s ev m : m_last_client m <= gw_now s -> last_client_of s ev m <= gw_now s.
+Proof. intros H. unfold last_client_of. destruct (is_sn ev); [lia|exact H]. Qed.
+
+Lemma step_ended cfg PF s ev m : GJm cfg PF s m -> gw_ended s = true -> Concl cfg PF s ev m.
+Proof.
+  intros G He. unfold Concl. rewrite (gw_step_ended cfg s ev He). cbn [fst snd]. rewrite obs_nil.
+  assert (Hov : over_of s [] = true) by (unfold over_of; rewrite He; apply orb_true_r).
+  unfold connect_by_of, end_by_of. rewrite Hov. split.
+  - constructor.
+    + apply lc_ok, G.
+    + intros T E. discriminate E.
+    + intros E. congruence.
+    + apply su_ok, G.
+    + intros T E. discriminate E.
+    + left. exact He.
+  - unfold okF, f10_of, f13a_of, f13b_of, f34_of, cause_of, running, ending. rewrite He. cbn [negb andb orb].
+    split; [|split; [reflexivity|split]].
+    + destruct (m_connect_by m) as [T|] eqn:E; [|reflexivity]. destruct (gj_cb _ _ _ _ _ _ _ _ G T E) as (_ & A & _). congruence.
+    + destruct (m_end_by m) as [T|] eqn:E; [|reflexivity]. destruct (gj_eb _ _ _ _ _ _ _ _ G T E) as (A & _). congruence.
+    + intros _. rewrite andb_false_r. reflexivity.
+Qed.
+
+Lemma step_ending cfg PF s ev m te :
+  GJm cfg PF s m -> gw_ended s = false -> gw_ending s = Some te -> gw_now s <= te <= gw_now s + 100 ->
+  (forall T, m_connect_by m = Some T -> te <= T) -> Concl cfg PF s ev m.
+Proof.
+  intros G He Hing Hte HT.
+  assert (Hcause : cause_of cfg s ev = None) by (unfold cause_of, running; rewrite Hing, andb_false_r; reflexivity).
+  assert (Hending : ending s = true) by (unfold ending; rewrite Hing; apply orb_true_r).
+  assert (Heb : forall T, m_end_by m = Some T -> te <= T).
+  { intros T E. destruct (gj_eb _ _ _ _ _ _ _ _ G T E) as (_ & te' & A & A'). congruence. }
+  assert (Hf13a : forall os, f13a_of cfg s ev os = []) by (intros os; unfold f13a_of; rewrite Hcause; reflexivity).
+  assert (Hf34 : forall os, f34_of cfg s ev os m = []).
+  { intros os. unfold f34_of. rewrite Hending. cbn [negb]. rewrite andb_false_r. reflexivity. }
+  unfold Concl. destruct (is_adv ev) eqn:Hadv.
+  - destruct ev as [| | | |d|]; try discriminate Hadv. rewrite (gw_step_ending_adv cfg s d te He Hing).
+    destruct (te <=? gw_now s + d) eqn:Hdue; cbn [fst snd].
+    + apply N.leb_le in Hdue.
+      assert (Hov : forall os, over_of (s <| gw_now := te |> <| gw_ended := true |> <| gw_ending := None |>) os = true).
+      { intros os. unfold over_of. cbn. apply orb_true_r. }
+      unfold connect_by_of, end_by_of. rewrite Hov. split.
+      * constructor.
+        -- cbn. pose proof (gj_lc _ _ _ _ _ _ _ _ G). unfold last_client_of. cbn. lia.
+        -- intros T E. discriminate E.
+        -- cbn. intros E. discriminate E.
+        -- apply su_ok, G.
+        -- intros T E. discriminate E.
+        -- left. reflexivity.
+      * unfold okF. split; [|split; [apply Hf13a|split; [|intros _; apply Hf34]]].
+        -- unfold f10_of. destruct (m_connect_by m) as [T|] eqn:E; [|reflexivity].
+           rewrite (ended_by_intro [OutEnd te] te T); [rewrite andb_false_r; reflexivity|left; reflexivity|apply HT; reflexivity].
+        -- unfold f13b_of. destruct (m_end_by m) as [T|] eqn:E; [|reflexivity].
+           rewrite (ended_by_intro [OutEnd te] te T); [rewrite andb_false_r; reflexivity|left; reflexivity|apply Heb; reflexivity].
+    + apply N.leb_gt in Hdue. rewrite obs_nil.
+      assert (Hov : over_of (s <| gw_now := gw_now s + d |>) [] = false) by (unfold over_of; cbn; exact He).
+      unfold connect_by_of, end_by_of. rewrite Hov, Hcause. cbn [is_sn gw_connect set]. split.
+      * constructor.
+        -- cbn. pose proof (gj_lc _ _ _ _ _ _ _ _ G). unfold last_client_of. cbn. lia.
+        -- cbn. intros T E. destruct (gw_connect s) as [g|] eqn:Hg; [|discriminate E]. split; [|split; [exact He|discriminate]].
+           destruct (m_connect_by m) as [T0|] eqn:E0; inversion E; subst.
+           ++ destruct (gj_cb _ _ _ _ _ _ _ _ G T E0) as (A & _). lia.
+           ++ unfold connectTransactionTimeout, connTimeout. lia.
+        -- cbn. intros _ Hc. destruct (gw_connect s); [|congruence]. destruct (m_connect_by m); discriminate.
+        -- apply su_ok, G.
+        -- cbn. intros T E. destruct (m_end_by m) as [T0|] eqn:E0; inversion E; subst. split; [exact He|].
+           exists te. split; [exact Hing|apply Heb; reflexivity].
+        -- right. left. cbn. split; [exact He|]. exists te. split; [exact Hing|]. split; [lia|].
+           intros T E. destruct (gw_connect s); [|discriminate E].
+           destruct (m_connect_by m) as [T0|] eqn:E0; inversion E; subst; [apply HT; reflexivity|].
+           unfold connectTransactionTimeout, connTimeout. lia.
+      * unfold okF. split; [|split; [apply Hf13a|split; [|intros _; apply Hf34]]].
+        -- unfold f10_of. destruct (m_connect_by m) as [T|] eqn:E; [|reflexivity]. specialize (HT T eq_refl).
+           cbn [step_end]. destruct (N.leb_spec T (gw_now s + d)); [lia|]. rewrite andb_false_r. reflexivity.
+        -- unfold f13b_of. destruct (m_end_by m) as [T|] eqn:E; [|reflexivity]. specialize (Heb T eq_refl).
+           cbn [step_end]. destruct (N.leb_spec T (gw_now s + d)); [lia|]. rewrite andb_false_r. reflexivity.
+  - rewrite (gw_step_ending_other cfg s ev te He Hing Hadv). cbn [fst snd]. rewrite obs_nil.
+    assert (Hov : over_of s [] = false) by (unfold over_of; cbn; exact He).
+    unfold connect_by_of, end_by_of. rewrite Hov, Hcause. split.
+    + constructor.
+      * apply lc_ok, G.
+      * intros T E. destruct (gw_connect s) as [g|] eqn:Hg; [|discriminate E]. split; [|split; [exact He|discriminate]].
+        destruct (is_sn ev); [inversion E; unfold connectTransactionTimeout, connTimeout; lia|].
+        destruct (m_connect_by m) as [T0|] eqn:E0; inversion E; subst.
+        -- destruct (gj_cb _ _ _ _ _ _ _ _ G T E0) as (A & _). lia.
+        -- unfold connectTransactionTimeout, connTimeout. lia.
+      * intros _ Hc. destruct (gw_connect s); [|congruence]. destruct (is_sn ev); [discriminate|]. destruct (m_connect_by m); discriminate.
+      * apply su_ok, G.
+      * intros T E. destruct (m_end_by m) as [T0|] eqn:E0; inversion E; subst. split; [exact He|].
+        exists te. split; [exact Hing|apply Heb; reflexivity].
+      * right. left. split; [exact He|]. exists te. split; [exact Hing|]. split; [exact Hte|].
+        intros T E. destruct (gw_connect s); [|discriminate E].
+        destruct (is_sn ev); [inversion E; unfold connectTransactionTimeout, connTimeout; lia|].
+        destruct (m_connect_by m) as [T0|] eqn:E0; inversion E; subst; [apply HT; reflexivity|].
+        unfold connectTransactionTimeout, connTimeout. lia.
+    + unfold okF. split; [|split; [apply Hf13a|split; [|intros _; apply Hf34]]].
+      * unfold f10_of. rewrite Hadv. destruct (m_connect_by m); reflexivity.
+      * unfold f13b_of. rewrite Hadv. destruct (m_end_by m); reflexivity.
+Qed.
+
+Lemma ev_packet_some ev p : ev_packet ev = Some p -> exists dg, ev = EvSn dg /\ read_dgram dg = Ok p.
+Proof.
+  destruct ev as [dg|m| | |d|]; cbn; try (intros H; discriminate H).
+  destruct (read_dgram dg) as [p'|e|ps] eqn:Hr; try (intros H; discriminate H). intros H. inversion H; subst.
+  exists dg. split; [reflexivity|exact Hr].
+Qed.
+
+(* the announced end of the sleep the handler is run with: a new announcement counts at once *)
+Definition Upre (s s' : gw_state) (ev : gw_event) (m : mon) : option N :=
+  match ev_packet ev with
+  | Some (Disconnect d) => if d =? 0 then sleep_until_of s s' ev m else Some (gw_now s + d * 1000)
+  | _ => sleep_until_of s s' ev m end.
+
+Lemma Upre_eq cfg s ev m S o : hd cfg s ev = (S, o, HOk) -> Upre s S ev m = sleep_until_of s S ev m.
+Proof.
+  unfold Upre. destruct (ev_packet ev) as [p|] eqn:Hp; [|reflexivity]. destruct p; try reflexivity.
+  destruct (dur =? 0) eqn:Hd; [reflexivity|]. intros Hr.
+  apply ev_packet_some in Hp. destruct Hp as (dg & -> & Hdg). unfold hd in Hr. rewrite Hdg in Hr.
+  apply N.eqb_neq in Hd. apply handle_sn_disc_asleep in Hr; [|exact Hd].
+  unfold sleep_until_of, sleep_dur_of. cbn [is_sn ev_packet]. rewrite Hdg, Hr. cbn [cstate_eqb].
+  assert (E : (0 <? dur) = true) by (apply N.ltb_lt; lia). rewrite E. reflexivity.
+Qed.
+
+Lemma Upre_mono cfg PF s s' ev m B :
+  GJm cfg PF s m -> TI cfg PF B (m_last_client m) (m_sleep_until m) (gw_now s) s -> PF ->
+  has_ping s && (negb (cstate_eqb (gw_st s') Asleep) ||
+                 match ev_packet ev with Some (Disconnect d) => negb (d =? 0) | _ => false end) = false ->
+  Upre s s' ev m = m_sleep_until m \/ no_ping s \/
+  exists u u', m_sleep_until m = Some u /\ Upre s s' ev m = Some u' /\ u <= u'.
+Proof.
+  intros G H HP Hex. destruct (has_ping s) eqn:Hp; [|right; left; apply has_ping_false, Hp].
+  cbn [andb] in Hex. apply orb_false_iff in Hex. destruct Hex as [Hex1 Hex2]. apply negb_false_iff in Hex1.
+  assert (E1 : Upre s s' ev m = sleep_until_of s s' ev m).
+  { unfold Upre. destruct (ev_packet ev) as [p|]; [|reflexivity]. destruct p; try reflexivity.
+    apply negb_false_iff in Hex2. rewrite Hex2. reflexivity. }
+  assert (E2 : sleep_dur_of s' ev m = m_sleep_dur m).
+  { unfold sleep_dur_of. destruct (ev_packet ev) as [p|]; [|reflexivity]. destruct p; try reflexivity.
+    apply negb_false_iff, N.eqb_eq in Hex2. subst dur. reflexivity. }
+  rewrite E1. unfold sleep_until_of. rewrite Hex1, E2. destruct (is_sn ev); [|left; reflexivity].
+  right. right. apply has_ping_true in Hp. destruct Hp as (tm & p & Hin & Hk).
+  destruct (ti_ping _ _ _ _ _ _ _ H HP tm p Hin Hk) as (u & _ & Hu & _). exists u. eexists. split; [exact Hu|].
+  split; [reflexivity|]. rewrite (gj_su _ _ _ _ _ _ _ _ G u Hu). pose proof (gj_lc _ _ _ _ _ _ _ _ G). lia.
+Qed.
+
+
+Lemma Bof_bound cfg PF s m : GJm cfg PF s m -> Bof s (m_connect_by m) <= gw_now s + 5100.
+Proof.
+  intros G. unfold Bof. destruct (m_connect_by m) as [T|] eqn:E; [|lia].
+  destruct (gj_cb _ _ _ _ _ _ _ _ G T E) as (A & _). exact A.
+Qed.
+
+Lemma step_running cfg PF s ev m :
+  GJm cfg PF s m ->
+  TI cfg PF (Bof s (m_connect_by m)) (m_last_client m) (m_sleep_until m) (gw_now s) s ->
+  is_adv ev = false -> (PF -> c34_excluded cfg s ev = false) -> Concl cfg PF s ev m.
+Proof.
+  intros G H Hadv Hex.
+  pose proof (ti_ended _ _ _ _ _ _ _ H) as He. pose proof (ti_ending _ _ _ _ _ _ _ H) as Hing.
+  assert (Hmeb : m_end_by m = None).
+  { destruct (m_end_by m) as [T|] eqn:E; [|reflexivity]. destruct (gj_eb _ _ _ _ _ _ _ _ G T E) as (_ & te & A & _). congruence. }
+  pose proof (Bof_bound cfg PF s m G) as HBb. pose proof (gj_lc _ _ _ _ _ _ _ _ G) as Hlc.
+  unfold Concl, c34_excluded in *. rewrite (gw_step_running cfg s ev He Hing Hadv) in *.
+  pose proof (f13a_ok cfg s ev) as Hf13a.
+  set (B2 := if is_sn ev then gw_now s + connectTransactionTimeout + connTimeout else Bof s (m_connect_by m)).
+  assert (HB2 : Bof s (m_connect_by m) <= B2 /\ B2 <= gw_now s + 5100).
+  { subst B2. unfold connectTransactionTimeout, connTimeout. destruct (is_sn ev); lia. }
+  assert (HPT : PT cfg PF B2 (last_client_of s ev m)
+                   (Upre s (fst (finish_r (hd cfg s ev) (hx ev) (hy ev))) ev m) (gw_now s) (hd cfg s ev)).
+  { apply hd_pt.
+    - apply (TI_mono _ _ _ _ _ _ _ B2 _ _ H); [apply HB2|unfold last_client_of; destruct (is_sn ev); lia|].
+      intros HP. apply (Upre_mono cfg PF s _ ev m _ G H HP). apply Hex, HP.
+    - intros Hsn. subst B2. unfold last_client_of. rewrite Hsn. split; lia.
+    - intros HP d Hp Hd. unfold Upre. rewrite Hp. apply N.eqb_neq in Hd. rewrite Hd. eexists. split; [reflexivity|lia]. }
+  assert (Hf10 : forall os, f10_of s ev os m = []) by (intros os; unfold f10_of; rewrite Hadv; destruct (m_connect_by m); reflexivity).
+  assert (Hf13b : forall os, f13b_of s ev os m = []) by (intros os; unfold f13b_of; rewrite Hadv; destruct (m_end_by m); reflexivity).
+  assert (Hf34 : forall os, f34_of cfg s ev os m = []) by (intros os; unfold f34_of; rewrite Hadv; reflexivity).
+  assert (HokF : okF cfg PF s ev (obs_of_outs (snd (finish_r (hd cfg s ev) (hx ev) (hy ev)))) m).
+  { unfold okF. split; [apply Hf10|]. split; [exact Hf13a|]. split; [apply Hf13b|intros _; apply Hf34]. }
+  split; [|exact HokF]. clear HokF Hf10 Hf13a Hf13b Hf34 Hex.
+  pose proof (cause_ends cfg s ev) as Hce.
+  pose proof (Upre_eq cfg s ev m) as Hup.
+  destruct (hd cfg s ev) as [[S o] res].
+  destruct HPT as [HTI Hne]. cbn [st_of outs_of fst snd] in HTI, Hne.
+  destruct res as [|c].
+  - (* the session goes on *)
+    cbn [finish_r fst snd] in *. rewrite (Hup S o eq_refl) in HTI.
+    pose proof (ti_now _ _ _ _ _ _ _ HTI) as HnowS. pose proof (ti_ended _ _ _ _ _ _ _ HTI) as HeS.
+    assert (Hov : over_of S (obs_of_outs o) = false) by (unfold over_of; rewrite (has_end_no_end o Hne), HeS; reflexivity).
+    assert (Hcause : cause_of cfg s ev = None).
+    { destruct (cause_of cfg s ev) as [b|] eqn:E; [|reflexivity]. destruct (Hce b eq_refl) as (S1 & o1 & c1 & E1). discriminate E1. }
+    unfold connect_by_of, end_by_of. rewrite Hov, Hmeb, Hcause.
+    constructor.
+    + rewrite HnowS. apply lc_ok, Hlc.
+    + intros T E. destruct (gw_connect S) as [g|] eqn:Hg; [|discriminate E]. rewrite HnowS.
+      split; [|split; [exact HeS|discriminate]].
+      destruct (is_sn ev); [inversion E; unfold connectTransactionTimeout, connTimeout; lia|].
+      destruct (m_connect_by m) as [T0|] eqn:E0; inversion E; subst; [exact HBb|].
+      unfold connectTransactionTimeout, connTimeout. lia.
+    + intros _ Hc. destruct (gw_connect S); [|congruence]. destruct (is_sn ev); [discriminate|]. destruct (m_connect_by m); discriminate.
+    + apply su_ok, G.
+    + intros T E. discriminate E.
+    + right. right. rewrite HnowS. apply (TI_mono _ _ _ _ _ _ _ _ _ _ HTI); [|lia|intros _; left; reflexivity].
+      unfold Bof at 1. rewrite HnowS. destruct (gw_connect S); [|apply HB2]. subst B2.
+      destruct (is_sn ev); [unfold connectTransactionTimeout, connTimeout; lia|].
+      destruct (m_connect_by m) as [T0|]; [cbn; lia|unfold connectTransactionTimeout, connTimeout; cbn; lia].
+  - (* the session is cancelled *)
+    pose proof (begin_end_spec (gw_now s) S c (hx ev) (hy ev) (TI_TB _ _ _ _ _ _ _ HTI)) as (B1 & B2' & B3 & B4 & te & B5 & B6).
+    destruct (begin_end_quiet cfg PF 0 None S c (hx ev) (hy ev)) as [_ Q2].
+    cbn [finish_r]. destruct (begin_end S c (hx ev) (hy ev)) as [s1 o1]. cbn [fst snd] in *.
+    assert (Hov : over_of s1 (obs_of_outs (o ++ o1)) = false).
+    { unfold over_of. rewrite (has_end_no_end _ (no_end_app _ _ Hne Q2)), B1. reflexivity. }
+    unfold connect_by_of, end_by_of. rewrite Hov, Hmeb.
+    assert (HT : forall T, (if match gw_connect s1 with Some _ => true | None => false end
+                        then if is_sn ev then Some (gw_now s + connectTransactionTimeout + connTimeout)
+                             else match m_connect_by m with Some T => Some T
+                                  | None => Some (gw_now s + connectTransactionTimeout + connTimeout) end
+                        else None) = Some T -> T <= gw_now s + 5100 /\ te <= T).
+    { intros T E. destruct (gw_connect s1); [|discriminate E].
+      destruct (is_sn ev); [inversion E; unfold connectTransactionTimeout, connTimeout; lia|].
+      destruct (m_connect_by m) as [T0|] eqn:E0; inversion E; subst; [|unfold connectTransactionTimeout, connTimeout; lia].
+      split; [exact HBb|]. destruct (gj_cb _ _ _ _ _ _ _ _ G T E0) as (_ & _ & Hcn).
+      destruct (gw_connect s) as [g|] eqn:Hg; [|congruence].
+      destruct (ti_conn _ _ _ _ _ _ _ H g Hg) as (_ & _ & tm & C1 & C2 & C3).
+      destruct (ti_tm _ _ _ _ _ _ _ H tm C1) as [C4 _]. cbn [Bof] in C3. lia. }
+    constructor.
+    + rewrite B2'. apply lc_ok, Hlc.
+    + intros T E. rewrite B2'. split; [apply (HT T E)|]. split; [exact B1|]. destruct (gw_connect s1); [discriminate|discriminate E].
+    + intros _ Hc. destruct (gw_connect s1); [|congruence]. destruct (is_sn ev); [discriminate|]. destruct (m_connect_by m); discriminate.
+    + apply su_ok, G.
+    + intros T E. split; [exact B1|]. exists te. split; [exact B5|].
+      destruct (cause_of cfg s ev); inversion E. unfold connTimeout. lia.
+    + right. left. split; [exact B1|]. exists te. split; [exact B5|]. rewrite B2'. split; [exact B6|].
+      intros T E. apply (HT T E).
+Qed.
+
+Lemma TI_advance cfg PF B L U a t s :
+  TI cfg PF B L U a s -> a <= t -> (forall tm, In tm (gw_timers s) -> t <= tm_at tm) ->
+  TI cfg PF B L U t (s <| gw_now := t |>).
+Proof.
+  intros H Hle Htm.
+  apply (TI_upd cfg PF B L U a t s _ (fun _ => true) H); try reflexivity.
+  - exact Hle.
+  - cbn. rewrite filter_true. reflexivity.
+  - intros tm Hin _. apply Htm, Hin.
+  - right. split; [reflexivity|]. intros g Hg. cbn. split; [apply (ti_conn _ _ _ _ _ _ _ H g Hg)|reflexivity].
+  - intros tm g mid q st k m sn n _ _ _ Ho. cbn in Ho. exists mid, q, st, k, m, sn, n. split; [exact Ho|lia].
+  - intros tm g mq c _ _ _ Ho. cbn in Ho. eauto.
+Qed.
+
+Lemma mq_allowed_le cfg s s' d m :
+  mq_allowed cfg (m_last_client m) (sleep_until_of s s' (EvAdvance d) m) <= allowed_of cfg m.
+Proof.
+  unfold mq_allowed, allowed_of, sleep_until_of. cbn [is_sn].
+  destruct (cstate_eqb (gw_st s') Asleep); [lia|]. destruct (m_sleep_until m); lia.
+Qed.
+
+Lemma step_advance cfg PF s d m :
+  GJm cfg PF s m ->
+  TI cfg PF (Bof s (m_connect_by m)) (m_last_client m) (m_sleep_until m) (gw_now s) s ->
+  clock_ok cfg s (EvAdvance d) = true -> (PF -> c34_excluded cfg s (EvAdvance d) = false) ->
+  Concl cfg PF s (EvAdvance d) m.
+Proof.
+  intros G H Hck Hex.
+  pose proof (ti_ended _ _ _ _ _ _ _ H) as He. pose proof (ti_ending _ _ _ _ _ _ _ H) as Hing.
+  assert (Hmeb : m_end_by m = None).
+  { destruct (m_end_by m) as [T|] eqn:E; [|reflexivity]. destruct (gj_eb _ _ _ _ _ _ _ _ G T E) as (_ & te & A & _). congruence. }
+  pose proof (Bof_bound cfg PF s m G) as HBb. pose proof (gj_lc _ _ _ _ _ _ _ _ G) as Hlc.
+  assert (Hcause : cause_of cfg s (EvAdvance d) = None) by (unfold cause_of; destruct (running s); reflexivity).
+  unfold Concl, c34_excluded, clock_ok in *. cbv zeta in Hck. rewrite (gw_step_adv cfg s d He) in *. cbn [fst snd] in *.
+  set (t := gw_now s + d) in *.
+  set (rt := run_timers (advance_fuel cfg s d) cfg s t) in *.
+  set (s' := if gw_ended (fst rt) then fst rt else fst rt <| gw_now := t |>) in *.
+  assert (H2 : TI cfg PF (Bof s (m_connect_by m)) (m_last_client m) (sleep_until_of s s' (EvAdvance d) m) (gw_now s) s).
+  { apply (TI_mono _ _ _ _ _ _ _ _ _ _ H); [lia|lia|]. intros HP.
+    apply (Upre_mono cfg PF s s' (EvAdvance d) m _ G H HP). apply Hex, HP. }
+  pose proof (run_timers_spec cfg PF _ _ _ t (advance_fuel cfg s d) s (gw_now s) H2) as HRT.
+  fold rt in HRT. assert (Hle : gw_now s <= t) by (subst t; lia). specialize (HRT Hle).
+  destruct rt as [s2 o]. cbn [fst snd] in *. destruct HRT as (R1 & R2 & Rmq & Rcn & Rcase).
+  assert (Hf13a : f13a_of cfg s (EvAdvance d) (obs_of_outs o) = []) by (unfold f13a_of; rewrite Hcause; reflexivity).
+  assert (Hf13b : f13b_of s (EvAdvance d) (obs_of_outs o) m = []) by (unfold f13b_of; rewrite Hmeb; reflexivity).
+  assert (Hf34 : PF -> f34_of cfg s (EvAdvance d) (obs_of_outs o) m = []).
+  { intros HP. unfold f34_of.
+    assert (E : forallb (fun t1 => t1 <=? allowed_of cfg m) (mq_times (obs_of_outs o)) = true).
+    { apply forallb_forall. intros tau Hin. apply in_mq_times in Hin. destruct Hin as [m0 Hin].
+      apply N.leb_le. specialize (Rmq HP tau m0 Hin). pose proof (mq_allowed_le cfg s s' d m). lia. }
+    rewrite E. destruct (is_adv (EvAdvance d) && negb (ending s)); reflexivity. }
+  assert (Hcn : forall T, m_connect_by m = Some T -> gw_connect s <> None).
+  { intros T E. apply (gj_cb _ _ _ _ _ _ _ _ G T E). }
+  destruct Rcase as [(E1 & te & E2 & E3 & E4)|[(E0 & E1 & te & E2 & E3 & E4)|(E0 & E1 & E2)]].
+  - (* the session returned *)
+    subst s'. rewrite E1 in *.
+    assert (Hov : over_of s2 (obs_of_outs o) = true) by (unfold over_of; rewrite E1; apply orb_true_r).
+    unfold connect_by_of, end_by_of. rewrite Hov. split.
+    + constructor.
+      * unfold last_client_of. cbn [is_sn]. lia.
+      * intros T E. discriminate E.
+      * intros E. congruence.
+      * apply su_ok, G.
+      * intros T E. discriminate E.
+      * left. exact E1.
+    + unfold okF. split; [|split; [exact Hf13a|split; [exact Hf13b|exact Hf34]]].
+      unfold f10_of. destruct (m_connect_by m) as [T|] eqn:E; [|reflexivity].
+      rewrite (ended_by_intro o te T E2); [rewrite andb_false_r; reflexivity|]. apply E4. apply (Hcn T eq_refl).
+  - (* cancelled, Run returns later *)
+    subst s'. rewrite E1 in *. pose proof E2 as Eing. pose proof E3 as Ebd. pose proof E4 as EB.
+    cbn [gw_ended gw_ending gw_timers set] in Hck. rewrite E1, Eing in Hck. cbn [orb] in Hck.
+    apply andb_true_iff in Hck. destruct Hck as [_ Hck]. apply N.ltb_lt in Hck.
+    assert (Hov : over_of (s2 <| gw_now := t |>) (obs_of_outs o) = false).
+    { unfold over_of. rewrite (has_end_no_end o E0). cbn. exact E1. }
+    unfold connect_by_of, end_by_of. rewrite Hov, Hmeb, Hcause. cbn [is_sn gw_connect set].
+    assert (HT : forall T, (if match gw_connect s2 with Some _ => true | None => false end
+                        then match m_connect_by m with Some T => Some T
+                             | None => Some (gw_now s + connectTransactionTimeout + connTimeout) end
+                        else None) = Some T -> T <= t + 5100 /\ te <= T /\ gw_connect s2 <> None).
+    { intros T E. destruct (gw_connect s2) as [g2|] eqn:Hg2; [|discriminate E].
+      destruct (m_connect_by m) as [T0|] eqn:Ecb; inversion E; subst.
+      - split; [cbn [Bof] in HBb; lia|]. split; [|discriminate]. apply EB. apply (Hcn T eq_refl).
+      - exfalso. destruct (gw_connect s) as [g|] eqn:Hg; [|specialize (Rcn eq_refl); congruence].
+        apply (gj_cb' _ _ _ _ _ _ _ _ G He); [rewrite Hg; discriminate|exact Ecb]. }
+    split.
+    + constructor.
+      * cbn. unfold last_client_of. cbn [is_sn]. lia.
+      * cbn. intros T E. destruct (HT T E) as (A1 & A2 & A3). split; [exact A1|]. split; [exact E1|exact A3].
+      * cbn. intros _ Hc. destruct (gw_connect s2); [|congruence]. destruct (m_connect_by m); discriminate.
+      * apply su_ok, G.
+      * intros T E. discriminate E.
+      * right. left. cbn. split; [exact E1|]. exists te. split; [exact Eing|]. split; [lia|].
+        intros T E. apply (HT T E).
+    + unfold okF. split; [|split; [exact Hf13a|split; [exact Hf13b|exact Hf34]]].
+      unfold f10_of. destruct (m_connect_by m) as [T|] eqn:E; [|reflexivity]. cbn [step_end is_adv andb]. fold t.
+      destruct (N.leb_spec T t); [|reflexivity]. exfalso. specialize (EB (Hcn T eq_refl)). cbn [Bof] in EB. lia.
+  - (* the session goes on *)
+    pose proof (ti_ended _ _ _ _ _ _ _ E1) as E3. subst s'. rewrite E3 in *.
+    pose proof (ti_ending _ _ _ _ _ _ _ E1) as Eing.
+    cbn [gw_ended gw_ending gw_timers set] in Hck. rewrite E3, Eing in Hck. cbn [orb] in Hck. rewrite andb_true_r in Hck.
+    assert (Htm : forall tm, In tm (gw_timers s2) -> t < tm_at tm).
+    { intros tm Hin. rewrite forallb_forall in Hck. apply N.ltb_lt. apply Hck, Hin. }
+    assert (HTI : TI cfg PF (Bof s (m_connect_by m)) (m_last_client m)
+                     (sleep_until_of s (s2 <| gw_now := t |>) (EvAdvance d) m) t (s2 <| gw_now := t |>)).
+    { apply (TI_advance _ _ _ _ _ _ _ _ E1 R2). intros tm Hin. specialize (Htm tm Hin). lia. }
+    assert (Hov : over_of (s2 <| gw_now := t |>) (obs_of_outs o) = false).
+    { unfold over_of. rewrite (has_end_no_end o E0). cbn. exact E3. }
+    unfold connect_by_of, end_by_of. rewrite Hov, Hmeb, Hcause. cbn [is_sn gw_connect set].
+    split.
+    + constructor.
+      * cbn. unfold last_client_of. cbn [is_sn]. lia.
+      * cbn. intros T E. destruct (gw_connect s2) as [g2|] eqn:Hg2; [|discriminate E].
+        split; [|split; [exact E3|discriminate]].
+        destruct (m_connect_by m) as [T0|] eqn:Ecb; inversion E; subst; [cbn [Bof] in HBb; lia|].
+        unfold connectTransactionTimeout, connTimeout. lia.
+      * cbn. intros _ Hc. destruct (gw_connect s2); [|congruence]. destruct (m_connect_by m); discriminate.
+      * apply su_ok, G.
+      * intros T E. discriminate E.
+      * right. right. cbn [gw_now set]. apply (TI_mono _ _ _ _ _ _ _ _ _ _ HTI); [|unfold last_client_of; cbn [is_sn]; lia|intros _; left; reflexivity].
+        destruct (gw_connect s2); destruct (m_connect_by m); cbn [Bof gw_now set] in *;
+          unfold connectTransactionTimeout, connTimeout; lia.
+    + unfold okF. split; [|split; [exact Hf13a|split; [exact Hf13b|exact Hf34]]].
+      unfold f10_of. destruct (m_connect_by m) as [T|] eqn:E; [|reflexivity]. cbn [step_end is_adv andb]. fold t.
+      destruct (N.leb_spec T t); [|reflexivity]. exfalso. specialize (E2 (Hcn T eq_refl)).
+      destruct (gw_connect s2) as [g2|] eqn:Hg2; [|congruence].
+      destruct (ti_conn _ _ _ _ _ _ _ E1 g2 Hg2) as (_ & _ & tm & C1 & C2 & C3). specialize (Htm tm C1). cbn [Bof] in C3. lia.
+Qed.
+
+Lemma step_ok cfg PF s ev m :
+  GJm cfg PF s m -> clock_ok cfg s ev = true -> (PF -> c34_excluded cfg s ev = false) -> Concl cfg PF s ev m.
+Proof.
+  intros G Hck Hex. destruct (gj_ph _ _ _ _ _ _ _ _ G) as [He|[(He & te & Hing & Hte & HT)|H]].
+  - apply step_ended; assumption.
+  - eapply step_ending; eassumption.
+  - destruct (is_adv ev) eqn:Hadv.
+    + destruct ev; try discriminate Hadv. apply step_advance; assumption.
+    + apply step_running; assumption.
+Qed.
+
+(* ================================================================== histories *)
+
+Lemma mon_run_cons cfg s m ev evs :
+  mon_run cfg s m (ev :: evs) =
+  snd (mon_step cfg s (fst (gw_step cfg s ev)) ev (obs_of_outs (snd (gw_step cfg s ev))) m) ++
+  mon_run cfg (fst (gw_step cfg s ev))
+          (fst (mon_step cfg s (fst (gw_step cfg s ev)) ev (obs_of_outs (snd (gw_step cfg s ev))) m)) evs.
+Proof.
+  cbn [mon_run]. destruct (gw_step cfg s ev) as [s' outs]. cbn [fst snd].
+  destruct (mon_step cfg s s' ev (obs_of_outs outs) m) as [m' f]. reflexivity.
+Qed.
+
+Lemma only_props_f34 ps cfg s ev os m : existsb (N.eqb 34) ps = false -> only_props ps (f34_of cfg s ev os m) = [].
+Proof.
+  intros H. unfold f34_of. destruct (_ && _); [|reflexivity]. destruct (forallb _ _); [reflexivity|].
+  unfold only_props. cbn. rewrite H. reflexivity.
+Qed.
+
+Definition noF (PF : Prop) (f : list (N * N)) : Prop :=
+  only_props [10] f = [] /\ only_props [13] f = [] /\ (PF -> only_props [34] f = []).
+
+Lemma mon_run_ok cfg PF : forall evs s m,
+  GJm cfg PF s m -> fuel_ok_run cfg s evs ->
+  (PF -> run_all cfg (fun s ev => c34_excluded cfg s ev = false) s evs) ->
+  noF PF (mon_run cfg s m evs).
+Proof.
+  induction evs as [|ev evs IH]; intros s m G Hf Hx.
+  { cbn. repeat split; reflexivity. }
+  cbn [fuel_ok_run run_all] in Hf. destruct Hf as [Hck Hf].
+  assert (Hex : PF -> c34_excluded cfg s ev = false) by (intros HP; apply (Hx HP)).
+  assert (Hx' : PF -> run_all cfg (fun s ev => c34_excluded cfg s ev = false) (fst (gw_step cfg s ev)) evs)
+    by (intros HP; apply (Hx HP)).
+  destruct (step_ok cfg PF s ev m G Hck Hex) as [G' (F1 & F2 & F3 & F4)].
+  rewrite mon_run_cons.
+  destruct (mon_step_eq cfg s (fst (gw_step cfg s ev)) ev (obs_of_outs (snd (gw_step cfg s ev))) m)
+    as (M1 & M2 & M3 & M4 & M5 & f12 & M6).
+  assert (G2 : GJm cfg PF (fst (gw_step cfg s ev))
+                   (fst (mon_step cfg s (fst (gw_step cfg s ev)) ev (obs_of_outs (snd (gw_step cfg s ev))) m))).
+  { unfold GJm. rewrite M1, M2, M3, M4, M5. exact G'. }
+  destruct (IH _ _ G2 Hf Hx') as (I1 & I2 & I3).
+  rewrite M6, F1, F2, F3. cbn [app]. unfold noF. rewrite !only_props_app.
+  rewrite I1, I2. rewrite !only_props_f34 by reflexivity. rewrite !only_props_12 by reflexivity.
+  split; [reflexivity|]. split; [reflexivity|]. intros HP. rewrite (F4 HP), (I3 HP).
+  rewrite ?only_props_12 by reflexivity. reflexivity.
+Qed.
+
+Lemma GJ_init cfg PF : GJm cfg PF (init_state cfg) mon_init.
+Proof.
+  constructor; cbn.
+  - lia.
+  - intros T E. discriminate E.
+  - intros _ E. congruence.
+  - intros u E. discriminate E.
+  - intros T E. discriminate E.
+  - right. right. constructor; cbn; try reflexivity; try lia; try (intros; contradiction).
+    + constructor.
+    + intros g E. discriminate E.
+Qed.
+
+(* ================================================================== C13 and C10 *)
+
+Theorem mon_C13_sound : forall cfg evs, wf_cfg cfg -> Forall wf_event evs ->
+  fuel_ok_run cfg (init_state cfg) evs ->
+  only_props [13] (mon_run cfg (init_state cfg) mon_init evs) = [].
+Proof.
+  intros cfg evs _ _ Hf.
+  apply (mon_run_ok cfg False evs _ _ (GJ_init cfg False) Hf). intros [].
+Qed.
+
+Theorem mon_C10_sound : forall cfg evs, wf_cfg cfg -> Forall wf_event evs ->
+  fuel_ok_run cfg (init_state cfg) evs ->
+  only_props [10] (mon_run cfg (init_state cfg) mon_init evs) = [].
+Proof.
+  intros cfg evs _ _ Hf.
+  apply (mon_run_ok cfg False evs _ _ (GJ_init cfg False) Hf). intros [].
+Qed.
+
+(* C34, the part that holds: steps that leave the state Asleep, or announce a new sleep, while a sleep
+   pinger is scheduled are excluded *)
+Theorem mon_C34_partial : forall cfg evs, wf_cfg cfg -> Forall wf_event evs ->
+  fuel_ok_run cfg (init_state cfg) evs ->
+  run_all cfg (fun s ev => c34_excluded cfg s ev = false) (init_state cfg) evs ->
+  only_props [34] (mon_run cfg (init_state cfg) mon_init evs) = [].
+Proof.
+  intros cfg evs _ _ Hf Hx.
+  apply (mon_run_ok cfg True evs _ _ (GJ_init cfg True) Hf (fun _ => Hx)). exact I.
+Qed.
+
+(* ================================================================== examples: the side conditions hold on ordinary histories *)
+
+Fixpoint run_allb (cfg : gw_cfg) (P : gw_state -> gw_event -> bool) (s : gw_state) (evs : list gw_event) : bool :=
+  match evs with
+  | [] => true
+  | ev :: evs' => P s ev && run_allb cfg P (fst (gw_step cfg s ev)) evs'
+  end.
+
+Lemma run_allb_spec cfg P evs : forall s, run_allb cfg P s evs = true -> run_all cfg (fun s ev => P s ev = true) s evs.
+Proof.
+  induction evs as [|ev evs IH]; intros s H; cbn [run_all run_allb] in *; [exact I|].
+  apply andb_true_iff in H. destruct H as [H1 H2]. split; [exact H1|apply IH, H2].
+Qed.
+
+Lemma run_allb_negb cfg P evs : forall s,
+  run_allb cfg (fun s ev => negb (P s ev)) s evs = true -> run_all cfg (fun s ev => P s ev = false) s evs.
+Proof.
+  induction evs as [|ev evs IH]; intros s H; cbn [run_all run_allb] in *; [exact I|].
+  apply andb_true_iff in H. destruct H as [H1 H2]. split; [apply negb_true_iff, H1|apply IH, H2].
+Qed.
+
+Definition ex_cfg : gw_cfg :=
+  {| auth_enabled := false; cfg_user := None; cfg_pass := None; retry_delay := 1000; retry_count := 3;
+     predefined := []; min_tid := 1; max_tid := 65534 |}.
+
+Lemma ex_cfg_wf : wf_cfg ex_cfg.
+Proof. unfold wf_cfg. cbn. repeat split; try lia. constructor. Qed.
+
+Lemma dgram_wf p : wf_bytesb (pack p) = true -> (len (pack p) <=? 100) = true -> wf_event (EvSn (pack p)).
+Proof.
+  intros H1 H2. split; [apply wf_bytesb_spec; exact H1|].
+  apply N.leb_le in H2. unfold len in H2. unfold MaxPacketLen. lia.
+Qed.
+
+Ltac wf_events :=
+  repeat (apply Forall_cons;
+          [first [ exact I
+                 | (apply dgram_wf; vm_compute; reflexivity)
+                 | (cbn; repeat split; try lia; try (apply wf_bytesb_spec; reflexivity)) ]|]);
+  apply Forall_nil.
+
+Definition ex_con (ka : N) : gw_event := EvSn (pack (Connect false true 1 ka [99])).
+Definition ex_ack : gw_event := EvMq (MqConnack false 0).
+
+(* connect, subscribe, a QoS 1 publish of the broker with retransmissions, sleep with a pinger,
+   wake-up by PINGREQ and by CONNECT, disconnect *)
+Definition ex_ordinary : list gw_event :=
+  [ex_con 10; ex_ack; EvSn (pack (Subscribe false 1 0 5 0 [97; 98])); EvMq (MqSuback 5 [1]);
+   EvMq (MqPublish false 1 false [97; 98] 7 [1; 2; 3]); EvAdvance 1000; EvAdvance 2500; EvSn (pack (Puback 1 7 0));
+   EvSn (pack (Disconnect 30)); EvAdvance 25000; EvSn (pack (Pingreq [99])); EvAdvance 4000; EvAdvance 2000;
+   ex_con 10; EvAdvance 10000; EvSn (pack (Disconnect 0)); EvAdvance 50; EvAdvance 100].
+
+Example ex_ordinary_wf : Forall wf_event ex_ordinary.
+Proof. unfold ex_ordinary, ex_con, ex_ack. wf_events. Qed.
+
+Example fuel_ok_ordinary : fuel_ok_run ex_cfg (init_state ex_cfg) ex_ordinary.
+Proof. apply run_allb_spec. vm_compute. reflexivity. Qed.
+
+Example c34_not_excluded_ordinary :
+  run_all ex_cfg (fun s ev => c34_excluded ex_cfg s ev = false) (init_state ex_cfg) ex_ordinary.
+Proof. apply run_allb_negb. vm_compute. reflexivity. Qed.
+
+(* a half-open connect exchange: the session is over 5.1 s after the CONNECT *)
+Definition ex_halfopen : list gw_event := [ex_con 10; EvAdvance 3000; EvAdvance 2100].
+Example fuel_ok_halfopen : fuel_ok_run ex_cfg (init_state ex_cfg) ex_halfopen.
+Proof. apply run_allb_spec. vm_compute. reflexivity. Qed.
+Example halfopen_ends : snd (gw_step ex_cfg (snd (gw_run ex_cfg (init_state ex_cfg) [ex_con 10; EvAdvance 3000])) (EvAdvance 2100))
+                        = [OutCancel 5000 EcConnectTimeout; OutEnd 5100].
+Proof. vm_compute. reflexivity. Qed.
+
+(* ================================================================== C34 is false in the model *)
+
+(* The sleep pinger is cancelled only by its own TmPingCancel timer: the client (keep-alive 1 s) goes to
+   sleep for 30 s, wakes up 1.5 s later with CONNECT, and the gateway keeps writing PINGREQ to the broker
+   every second for the rest of the 30 s. *)
+Definition ex34 : list gw_event :=
+  [ex_con 1; ex_ack; EvSn (pack (Disconnect 30)); EvAdvance 1500; ex_con 1; EvAdvance 20000].
+
+Example C34_refuted :
+  exists cfg evs, wf_cfg cfg /\ Forall wf_event evs /\
+                  only_props [34] (mon_run cfg (init_state cfg) mon_init evs) <> [].
+Proof.
+  exists ex_cfg, ex34. split; [exact ex_cfg_wf|]. split; [unfold ex34, ex_con, ex_ack; wf_events|].
+  vm_compute. discriminate.
+Qed.
+
+(* ... on a history whose clock is not stuck, and whose CONNECT step is excluded by c34_excluded *)
+Example ex34_fuel_ok : fuel_ok_run ex_cfg (init_state ex_cfg) ex34.
+Proof. apply run_allb_spec. vm_compute. reflexivity. Qed.
+Example ex34_excluded :
+  c34_excluded ex_cfg (snd (gw_run ex_cfg (init_state ex_cfg) [ex_con 1; ex_ack; EvSn (pack (Disconnect 30)); EvAdvance 1500]))
+               (ex_con 1) = true.
+Proof. vm_compute. reflexivity. Qed.
+
+(* the second excluded kind of step: a shorter sleep is announced while the pinger of the first runs *)
+Definition ex34b : list gw_event :=
+  [ex_con 1; ex_ack; EvSn (pack (Disconnect 30)); EvAdvance 1500; EvSn (pack (Disconnect 5)); EvAdvance 20000].
+Example C34_refuted_resleep :
+  Forall wf_event ex34b /\ only_props [34] (mon_run ex_cfg (init_state ex_cfg) mon_init ex34b) = [(34, 1)].
+Proof. split; [unfold ex34b, ex_con, ex_ack; wf_events|vm_compute; reflexivity]. Qed.
+
+(* ================================================================== C12 is false in the model *)
+
+(* (a) an Active client that only sends REGISTERs (answered by the gateway itself) every 0.8 x keep-alive *)
+Definition ex12a : list gw_event :=
+  [ex_con 10; ex_ack; EvAdvance 8000; EvSn (pack (Register 0 1 [97; 98])); EvAdvance 8000;
+   EvSn (pack (Register 0 2 [97; 98])); EvAdvance 8000].
+Example C12_refuted_active :
+  wf_cfg ex_cfg /\ Forall wf_event ex12a /\ fuel_ok_run ex_cfg (init_state ex_cfg) ex12a /\
+  In (12, 1) (only_props [12] (mon_run ex_cfg (init_state ex_cfg) mon_init ex12a)).
+Proof.
+  split; [exact ex_cfg_wf|]. split; [unfold ex12a, ex_con, ex_ack; wf_events|].
+  split; [apply run_allb_spec; vm_compute; reflexivity|]. vm_compute. left. reflexivity.
+Qed.
+
+(* (b) a client that sleeps for at most its keep-alive (no pinger is started) and wakes up in time *)
+Definition ex12b : list gw_event :=
+  [ex_con 10; ex_ack; EvSn (pack (Disconnect 10)); EvAdvance 9000; EvSn (pack (Pingreq [99])); EvAdvance 9000;
+   EvSn (pack (Pingreq [99])); EvAdvance 9000].
+Example C12_refuted_short_sleep :
+  wf_cfg ex_cfg /\ Forall wf_event ex12b /\ fuel_ok_run ex_cfg (init_state ex_cfg) ex12b /\
+  In (12, 2) (only_props [12] (mon_run ex_cfg (init_state ex_cfg) mon_init ex12b)).
+Proof.
+  split; [exact ex_cfg_wf|]. split; [unfold ex12b, ex_con, ex_ack; wf_events|].
+  split; [apply run_allb_spec; vm_compute; reflexivity|]. vm_compute. left. reflexivity.
+Qed.
+
+(* (c) the pinger's first PINGREQ comes one keep-alive after the DISCONNECT, not after the last write:
+   a client that was silent for 0.9 x keep-alive before it went to sleep leaves a gap of 1.9 x keep-alive *)
+Definition ex12c : list gw_event :=
+  [ex_con 10; ex_ack; EvAdvance 9000; EvSn (pack (Disconnect 60)); EvAdvance 10000].
+Example C12_refuted_pinger_gap :
+  wf_cfg ex_cfg /\ Forall wf_event ex12c /\ fuel_ok_run ex_cfg (init_state ex_cfg) ex12c /\
+  In (12, 2) (only_props [12] (mon_run ex_cfg (init_state ex_cfg) mon_init ex12c)).
+Proof.
+  split; [exact ex_cfg_wf|]. split; [unfold ex12c, ex_con, ex_ack; wf_events|].
+  split; [apply run_allb_spec; vm_compute; reflexivity|]. vm_compute. left. reflexivity.
+Qed.
